@@ -217,7 +217,24 @@ func (c *compiler) evalUserFunction(node *userFunction, args []ast.Expression) (
 		res = ro.Value[0]
 	}
 
+	// a body that also produced text before its return yields all of it as a plain
+	// list: the return is consumed by the call and must not end the caller's block
+	if ro, ok := res.(returnObject); ok {
+		res = flattenReturn(ro, nil)
+	}
+
 	return res, nil
+}
+
+func flattenReturn(ro returnObject, into []interface{}) []interface{} {
+	for _, v := range ro.Value {
+		if inner, ok := v.(returnObject); ok {
+			into = flattenReturn(inner, into)
+			continue
+		}
+		into = append(into, v)
+	}
+	return into
 }
 
 func (c *compiler) evalFunctionLiteral(node *ast.FunctionLiteral) (interface{}, error) {
